@@ -29,6 +29,37 @@ CLAIMS = {
         ),
         note=NOTE_COMMON + "Kernel type fact (A4): in inter_plane_plane the auxiliary line meets plane b in a Point.",
     ),
+    "C15": dict(
+        technique="CFG must-pass-through of rejection guards + def-use + type-set abstract evaluation on unsupported operand types (static analysis, ast)",
+        ref="DESIGN.md 3 (C15)",
+        text=(
+            "Decides the structural clauses of C15 for all inputs: each validation named in the statement is a rejection "
+            "guard (a condition one of whose edges leads only to raise) that lies on every normal path of its "
+            "constructor/helper, is data-dependent on the inputs it validates, reads the live tolerance where "
+            "near-degenerate inputs are named, has the right count threshold, and -- for element-wise validations -- "
+            "sits in a loop over the validated collection that no iteration can complete without; unsupported operand "
+            "types make intersection/distance/angle/parallel/orthogonal/volume/move and the typed constructors raise "
+            "(abstract evaluation on the unsupported types); exception objects are raised, not returned; constructors "
+            "assign all their fields. NOT decided: rejections that happen only through arithmetic/index exceptions "
+            "(zero normal, collinear plane points, <3 distinct vertices) and whether the guards are sufficient."
+        ),
+        note=NOTE_COMMON + "Guards are recognised by CFG shape and data dependence, never by text.",
+    ),
+    "C19": dict(
+        technique="name-resolution / scoping dataflow over imports + constant folding of the setters (static analysis, ast)",
+        ref="DESIGN.md 3 (C19)",
+        text=(
+            "Decides that every tolerance the library uses is a live read of the configuration: no expression outside "
+            "utils/constant.py reads the import-time names FLOAT_EPS/SIG_FIGURES (resolved through explicit and star "
+            "imports), getter results are never cached beyond one function activation (module/class level, default "
+            "arguments, attributes, globals), every rounding precision derives from get_sig_figures(), no comparison "
+            "uses a private float literal below 1e-3, and both setters declare and assign both globals on every path "
+            "with the stated relation at the defaults and at one further setting (constant folding of the setters' own "
+            "expressions; whole package incl. visualization). NOT decided: the numeric clauses (eps/1000 compares and "
+            "hashes equal, 4*eps compares unequal)."
+        ),
+        note=NOTE_COMMON + "An imported name is bound to the value at import time (Python scoping), a call is a live read.",
+    ),
 }
 
 NOT_APPLICABLE = [
